@@ -92,7 +92,7 @@ func init() {
 				if err := json.Unmarshal(raw, &in); err != nil {
 					return err
 				}
-				if err := c.Emit("histfold", in, runHist(in)); err != nil {
+				if err := c.Emit("histfold", withProp(in), runHist(in)); err != nil {
 					return err
 				}
 			}
@@ -100,7 +100,7 @@ func init() {
 		}
 		for i := 0; i < c.N; i++ {
 			in := genHistIn(c)
-			if err := c.Emit("histfold", in, runHist(in)); err != nil {
+			if err := c.Emit("histfold", withProp(in), runHist(in)); err != nil {
 				return err
 			}
 		}
